@@ -29,7 +29,12 @@ fn main() {
     }
     let code = match id.as_str() {
         "SMOKE" => vcheck::checks::smoke::run(),
+        "C01" => vcheck::checks::hchecks::c01(tier, seed),
+        "C03" => vcheck::checks::hchecks::c03(tier, seed),
+        "C06" => vcheck::checks::hchecks::c06(tier, seed),
+        "C07" => vcheck::checks::hchecks::c07(tier, seed),
         "C02" => vcheck::checks::c02::run(tier, seed),
+        "C05" => vcheck::checks::c05::run(tier, seed),
         "C09" => vcheck::checks::c09::run(tier, seed),
         "C13" => vcheck::checks::c13::run(tier, seed),
         _ => {
